@@ -1,7 +1,28 @@
 import PydlVerif.Model.JsonUtil
+import PydlVerif.Model.IterFit
+import PydlVerif.Driver.C08
+import PydlVerif.Driver.C09
 open Lean
 namespace PydlVerif.Driver.C10
+open PydlVerif PydlVerif.BSpline PydlVerif.BSplineFit PydlVerif.IterFit
 
-def handle (_j : Json) : Except String Json := throw "C10: no model operations yet"
+def optF (j : Json) (k : String) : Except String (Option Float) := J.fOpt J.float j k
+
+def handle (j : Json) : Except String Json := do
+  let op ← J.fStr j "op"
+  match op with
+  | "iterfit" =>
+    let xs ← C09.floats j "x"
+    let ys ← C09.floats j "y"
+    let ivs ← C09.floats j "iv"
+    let perm ← J.fNats j "perm"
+    let o ← C08.optsOf C08.floatCodec j
+    let p : Params Float := { upper := ← optF j "upper", lower := ← optF j "lower", maxiter := ← J.fNat j "maxiter",
+                              nord := ← J.fNat j "nord", opts := o }
+    let r := iterfit C09.kernelsF C08.floatCodec.r32 p xs ys ivs perm
+    pure (C09.resJ (fun (bm : BS Float × List Bool) => Json.mkObj [
+      ("bk", C09.encL bm.1.breakpoints.toList), ("bkmask", J.ofList Json.bool bm.1.mask.toList),
+      ("coeff", C09.encL bm.1.coeff.toList), ("outmask", J.ofList Json.bool bm.2)]) r)
+  | _ => throw s!"C10: unknown op {op}"
 
 end PydlVerif.Driver.C10
